@@ -241,6 +241,8 @@ def classify(case):
         cl.append("empty-selection")
     if any(op["op"] == "mask" and op.get("as_list") for op in prog):
         cl.append("mask-as-python-list")
+    if case.get("columns_after_info"):
+        cl.append("vcf-with-sample-columns-read-as-plain-entries")
     sel = ("slice", "mask", "ilist", "perm")
     if "perm" in kinds:
         cl.append("same-length-permutation")
@@ -471,6 +473,12 @@ def c04_case(draw, fmt, max_records, max_steps):
         # a VCF whose header declares typed INFO keys: reading the INFO column parses it key by key
         case = draw(S.vcf_case("vcf", max_records, typed=True))
         fmt = "vcf"
+    elif fmt == "vcf" and draw(st.integers(0, 2)) == 0:
+        # a VCF with FORMAT and sample columns read as plain VCF entries (what bnp.open gives for .vcf): the columns after INFO are no
+        # fields of the entry type, but they are part of every record
+        case = draw(S.vcf_case("vcf2", max_records))
+        case["fmt"] = "vcf"
+        case["columns_after_info"] = True
     else:
         case = draw(S.file_case(fmt, min_records=1, max_records=max_records, W=10, canonical=canonical_ints,
                                 crlf=False if fmt == "gtf" else None))
